@@ -66,7 +66,7 @@ type PartitionLog struct {
 	// offset is in neither the live buffer (drained) nor l.segments (not yet
 	// registered); Read consults this slice so the record stays readable. Set
 	// under l.mu by prepareFlush, cleared under l.mu by uploadFlush on commit or
-	// on the upload-failure reset.
+	// on the upload-failure reset (which re-queues them into the buffer).
 	flushingBatches []RecordBatch
 }
 
@@ -397,6 +397,10 @@ func (l *PartitionLog) uploadFlush(ctx context.Context, artifact *SegmentArtifac
 	})
 	if err := g.Wait(); err != nil {
 		l.mu.Lock()
+		// Nothing was committed: put the drained batches back so the next flush
+		// retries them. Dropping them here would let a producer waiting in Flush
+		// find an empty buffer and acknowledge records that are in no segment.
+		l.buffer.Requeue(l.flushingBatches)
 		l.flushing = false
 		l.flushingBatches = nil
 		l.flushCond.Broadcast()
